@@ -45,14 +45,18 @@ BASE = ('import sys\n'
         '    if mode == "busy-loop":\n        while True:\n            pass\n'
         '    if mode == "block-forever":\n        import threading\n        gate = threading.Lock()\n        gate.acquire()\n        gate.acquire()\n        return 9\n'
         '    if mode == "replace-stdout":\n        import io\n        sys.stdout = io.StringIO()\n        print("lost")\n        return 2\n'
+        '    if mode == "close-stdout":\n        sys.stdout.close()\n        return 4\n'
+        '    if mode == "close-stdout-then-print":\n        sys.stdout.close()\n        print("into the void")\n        return 5\n'
         '    if mode == "replace-sleep":\n        import time\n        time.sleep = lambda s: None\n        return 3\n'
         '    if mode == "import-json":\n        import colorsys, wave, sunau\n        return len(colorsys.__name__)\n'
         '    if mode == "recursion":\n        return finish(mode)\n'
         '    return 0\n')
 MODES = ['normal', 'value-error', 'key-error', 'bad-str', 'system-exit', 'keyboard-interrupt', 'generator-exit', 'base-exception',
-         'busy-loop', 'block-forever', 'replace-stdout', 'replace-sleep', 'import-json', 'recursion']
+         'busy-loop', 'block-forever', 'replace-stdout', 'replace-sleep', 'import-json', 'recursion', 'close-stdout', 'close-stdout-then-print']
 ABNORMAL = set(MODES) - {'normal', 'import-json'}
 ENTRIES = ['run', 'call', 'evaluate', 'import']
+# "pedal itself failed while recording": one of the sandbox's own recording steps raises once during the execution
+FAULTS = ['append_output', '_capture_exception']
 
 
 # -------------------------------------------------------------------------------------------------------
@@ -167,6 +171,14 @@ class ChildState:
                 if mode == 'block-forever' and op['tracer'] == 'coverage':
                     self.blocked_under_coverage = True
                 what = '%s(%s, threaded=%s, tracer=%s)' % (entry, mode, sb.threaded, op['tracer'])
+                fault = op.get('fault')
+                if fault:
+                    what += ' with an injected failure in %s' % fault
+
+                    def failing(*args, **kwargs):
+                        sb.__dict__.pop(fault, None)      # one shot: the class's own method is back for later executions
+                        raise RuntimeError('injected failure in ' + fault)
+                    setattr(sb, fault, failing)
                 if entry == 'run':
                     sb.run('finish(%r)\n' % mode, filename='answer.py')
                 elif entry == 'call':
@@ -187,6 +199,9 @@ class ChildState:
                 sb.tracer_style = op['style']
         except BaseException as e:
             outcome = 'raised ' + type(e).__name__
+        finally:
+            for name in FAULTS:
+                sb.__dict__.pop(name, None)
         self.quiesce()
         viol = self.check('%s [%s]' % (what, outcome))
         if kind == 'real_io' and op.get('allow'):
@@ -281,7 +296,8 @@ class Stepper:
 
     def op_strategy(self):
         ex = st.fixed_dictionaries({'op': st.just('exec'), 'entry': st.sampled_from(ENTRIES), 'mode': st.sampled_from(MODES),
-                                    'threaded': st.booleans(), 'tracer': st.sampled_from(['none', 'none', 'native', 'calls', 'coverage'])})
+                                    'threaded': st.booleans(), 'tracer': st.sampled_from(['none', 'none', 'native', 'calls', 'coverage'])},
+                                   optional={'fault': st.sampled_from(FAULTS)})
         return st.one_of(ex, ex, ex, ex, st.just({'op': 'clear_sandbox'}),
                          st.fixed_dictionaries({'op': st.just('real_io'), 'allow': st.booleans()}),
                          st.fixed_dictionaries({'op': st.just('tracer'), 'style': st.sampled_from(['none', 'native', 'calls', 'coverage'])}))
@@ -309,7 +325,7 @@ class Stepper:
         self.kill()
         abnormal_at = [i for i, o in enumerate(self.history) if o.get('op') == 'exec' and o.get('mode') in ABNORMAL]
         nontrivial = bool(abnormal_at) and abnormal_at[0] < len(self.history) - 1
-        classes = sorted({'mode=' + o['mode'] for o in self.history if o.get('op') == 'exec'} |
+        classes = sorted({'mode=' + o['mode'] for o in self.history if o.get('op') == 'exec'} | {'fault=' + o['fault'] for o in self.history if o.get('fault')} |
                          {'entry=' + o['entry'] for o in self.history if o.get('op') == 'exec'})
         seen, out = set(), []
         for v in viol:
